@@ -3,7 +3,7 @@ From V.gen Require Consts.
 From V.C03 Require Import Model Msg Proofs UviProofs LsProofs WebRtc WebRtcProofs Fallback.
 From V.C03 Require Import MsgRef MsgProofs MsgInv Chan Dir SimD SimL SimSys BytesThm LazyThm.
 From V.C03 Require Import Work Work2 Live Timed TimedProofs Survivor NegOps LazyBytes Compose Sub SubProofs.
-From V.C03 Require Import Peer PeerTie.
+From V.C03 Require Import Peer PeerTie RefDiff.
 From V.C03 Require Glue.
 Import ListNotations.
 Open Scope N_scope.
@@ -382,3 +382,11 @@ Check (C03_peer_reference_listener_wire_vs_dialer :
             p_buf (e_in s) = [] /\ e_rem s = [])) /\
     (forall code i, t_res (e_t s) = (code, i) -> code <> 0 -> code <> 99 ->
        first_common (c_ds c) (c_ls c) = None)).
+Check (C03_ref_header_difference :
+  (forall p hr m, d_react p hr m <> d_react_ref p m -> hr = true /\ m = MHeader) /\
+  (forall ds S m, RD ds S m -> mstep_d_ref m = mstep_d m) /\
+  (forall S ps rs r, LegalL S ps rs r -> ~ In MHeader rs)).
+Check (C03_ref_name_difference :
+  (forall p, text_name p = true ->
+     decode_line_ref (encode_msg (MProto p)) = decode_msg (encode_msg (MProto p))) /\
+  (forall a b c : bytes, forallb (fun x => x <? 128) (a ++ b ++ c) = true -> text_name b = true)).
